@@ -94,6 +94,8 @@ type Prog struct {
 	anchorErrs []string
 	ctx        *CtxInfo
 	ssaFnByAst map[ast.Node]*ssa.Function
+
+	paramFreshBusy map[string]bool // recursion guard of paramFreshAtEveryCall (per program: programs are analysed in parallel)
 }
 
 func (p *Prog) anchorFail(format string, a ...any) {
